@@ -1214,7 +1214,7 @@ var _ = reflect.TypeOf
 
 func TestC18(t *testing.T) {
 	r := newRec("C18",
-		"a history case is one resource (the fixture Patient or a generated resource of any R4 type) and 1..5 operations; each operation targets a node of the current JSON tree (un-indexed, fully or partly indexed) optionally filtered by first()/last()/tail()/where(true|false)/[0]/extension(url)/where(id.exists()) or by a criterion that depends on the evaluate options every operation receives (where(now() = <the pinned instant>), where(%keep)), with op ∈ {add, insert, delete, replace, move}, an element name (valid, unknown, snake_case), an index in [-1,4] and a value that is a fresh element of the target's type, a sibling type (Code for an enum code, Integer for unsigned, …), a wrong type, a clone of the target or nil; method and package-level entry points.  Oracle after every step: error ⇒ resource and value bit-identical (deterministic serialisation, presence bits, proto.Equal); nil ⇒ the resource equals M-PATCH applied to a clone (independent protoreflect implementation on the target located by tree semantics; proto.Equal and google/fhir JSON), or, where the model does not predict the success, nothing changes when the path selects nothing; Move ⇒ ErrNotImplemented and unchanged.  Inverse-pair cases: add→delete, insert→delete, replace→replace-back restore the resource.  Populated-scalar cases: a densely populated resource of a drawn type and up to 12 add operations that each name an already populated scalar element: all must be refused.  Code cases: one add/replace of a plain Code on an enum-backed code element with a valid code or an invalid spelling of one (foreign, `_`/space/`.` for `-`, upper case, proto enum name, camelCase, padded): a code outside the value set must be refused (the tree would gain a text the element cannot hold).  non-trivial = an operation succeeded and changed the tree, or failed on a path selecting ≥ 1 node (histories); both steps succeeded (inverse pairs); distinct = FNV-64 of the case",
+		"a history case is one resource (the fixture Patient or a generated resource of any R4 type) and 1..5 operations; each operation targets a node of the current JSON tree (un-indexed, fully or partly indexed) optionally filtered by criteria computed from an empty sub-collection (where(id.empty()), where(id.exists().not()), where(id.count() = 0), where(extension.count() < 1)), for inserts optionally with the last step computed inside select() on the parent (the whole list, take(2), first(), tail(): judged by the frame rule that an insert removes no leaf of the JSON tree), or by first()/last()/tail()/where(true|false)/[0]/extension(url)/where(id.exists()) or by a criterion that depends on the evaluate options every operation receives (where(now() = <the pinned instant>), where(%keep)), with op ∈ {add, insert, delete, replace, move}, an element name (valid, unknown, snake_case), an index in [-1,4] and a value that is a fresh element of the target's type, a sibling type (Code for an enum code, Integer for unsigned, …), a wrong type, a clone of the target or nil; method and package-level entry points.  Oracle after every step: error ⇒ resource and value bit-identical (deterministic serialisation, presence bits, proto.Equal); nil ⇒ the resource equals M-PATCH applied to a clone (independent protoreflect implementation on the target located by tree semantics; proto.Equal and google/fhir JSON), or, where the model does not predict the success, nothing changes when the path selects nothing; Move ⇒ ErrNotImplemented and unchanged.  Inverse-pair cases: add→delete, insert→delete, replace→replace-back restore the resource.  Populated-scalar cases: a densely populated resource of a drawn type and up to 12 add operations that each name an already populated scalar element: all must be refused.  Code cases: one add/replace of a plain Code on an enum-backed code element with a valid code or an invalid spelling of one (foreign, `_`/space/`.` for `-`, upper case, proto enum name, camelCase, padded): a code outside the value set must be refused (the tree would gain a text the element cannot hold).  non-trivial = an operation succeeded and changed the tree, or failed on a path selecting ≥ 1 node (histories); both steps succeeded (inverse pairs); distinct = FNV-64 of the case",
 		"the statement is conditional on success: which well-typed operations succeed is reported (success:* classes) but not asserted", "google/fhir jsonformat defines the JSON rendering")
 	runProperty(t, r,
 		Stage[c18Case]{Name: "histories", Gen: c18Gen, Run: c18Run, N: pick(2500, 25000)},
